@@ -292,9 +292,9 @@ def allWith (f : Val → Bool) : Vals → Bool
 mutual
 /-- the decidable region in which the round trip is proved (see `Props/C17.lean`) -/
 def rtOK : Ty → Val → Bool
-  | .int min max _ _ _, v =>
+  | .int min max ext _ _, v =>
     match v with
-    | .int i => intFits (intClass min max) i
+    | .int i => intFits (intClass min max ext) i
     | _ => true
   | .enum _ _ _, v =>
     match v with
@@ -421,7 +421,7 @@ theorem readsOne_int (mn mx : Option Int) (e : Bool) (w : Nat) (sg : Bool) :
   refine ⟨_, rfl, rfl, rfl, ?_⟩
   intro s e' hs
   simp only [Item.payload] at hs
-  have hrd := readVarint_writeVarint' (intToVarint (intClass mn mx) i) (intToVarint_lt _ _)
+  have hrd := readVarint_writeVarint' (intToVarint (intClass mn mx e) i) (intToVarint_lt _ _)
   refine ⟨.int i, by simp [Val.protoEq, Val.eq_self], ?_, ?_⟩
   · intro n rest
     simp only [dec, Item.fmt, nextReader_head src n .varint s e' rest _ hs, bind_ok,
